@@ -116,10 +116,14 @@ class Bind:
 class Fn:
     """A function body with a binding index.  `subst`: {param index: (caller Fn, argument expr)} when this
     body is looked at as inlined at a call site.  `sel`: {id(match/if node): arm index / bool} picks one
-    alternative of a value-producing `match`/`if` for tracing."""
+    alternative of a value-producing `match`/`if` for tracing.
+    `strict` (default off, used by the verbatim-transport rule R03.9): nothing that can change a text is passed over
+    silently: `.map(f)`/`.and_then(f)` with a function path is a call of `f` unless `f` is a conversion of PASS/PASS_FN,
+    a range index (`&s[a..]`) is a `slice` call."""
 
-    def __init__(self, crate, body, subst=None, sel=None, line_hook=None):
+    def __init__(self, crate, body, subst=None, sel=None, line_hook=None, strict=False):
         self.crate = crate
+        self.strict = strict
         self.body = body
         self.root = body["body"]
         self.subst = subst or {}
@@ -204,6 +208,7 @@ class Fn:
     def with_sel(self, sel):
         f = Fn.__new__(Fn)
         f.crate, f.body, f.root, f.subst, f.line_hook = self.crate, self.body, self.root, self.subst, self.line_hook
+        f.strict = self.strict
         f.parent, f.binds = self.parent, self.binds
         f.sel = dict(self.sel)
         f.sel.update(sel)
@@ -236,6 +241,8 @@ class Fn:
                 return self._project(c, ("idx", int(e["name"])), e["e"], depth)
             return c.plus(("f", "?", e["name"]))
         if k == "index":
+            if self.strict and (H.peel(e["i"]).get("ty") or "").startswith("core::ops::range::"):
+                return t(e["e"]).plus(("call", "slice", [t(H.peel(e["i"]))], None))
             v = H.const_value(e["i"])
             return self._project(t(e["e"]), ("idx", v if isinstance(v, int) else "?"), e["e"], depth)
         if k == "lit":
@@ -378,6 +385,17 @@ class Fn:
                 return rc             # None.map(..) is None
             if a.get("k") == "closure":
                 return t(a["body"])
+            if self.strict:
+                # `.map(str::trim)`: a call like any other; `.map(JavaString::from)` / `.map(Some)`: conversion of the same value
+                res = a.get("res") or {}
+                fname = (res.get("path") or "").rsplit("::", 1)[-1].split("<")[0]
+                if a.get("k") == "path" and (res.get("dk", "").startswith("Ctor") or fname in PASS or fname in PASS_FN):
+                    return rc
+                if rty.lstrip("&").startswith("core::option::Option<"):
+                    rc = rc.plus(("some",))
+                elif not rty.lstrip("&").startswith("core::result::Result<"):
+                    rc = rc.plus(("elem",))
+                return rc.plus(("call", fname if a.get("k") == "path" and fname else "<fn value>", [], res.get("inst_key") or res.get("key")))
             return rc             # `.map(JavaString::from)`: conversion of the same value
         if name in ("unwrap_or", "unwrap_or_else", "or", "or_else") and e["args"]:
             a = H.peel(e["args"][0])
@@ -477,8 +495,9 @@ def is_sink(n):
 class Writer:
     """Emission terms of writer functions of one crate."""
 
-    def __init__(self, crate):
+    def __init__(self, crate, strict=False):
         self.crate = crate
+        self.strict = strict
         self._emits = {}
         self.inlined = set()      # keys of the helper functions whose writes were inlined into a term
 
@@ -568,7 +587,7 @@ class Writer:
                 args = H.call_args(n)
                 self.inlined.add(key)
                 callee = Fn(self.crate, self.crate.by_key[key], subst={i: (fn, a) for i, a in enumerate(args)},
-                            line_hook=fn.line_hook)
+                            line_hook=fn.line_hook, strict=fn.strict)
                 return ("inl", n, key, self.term(callee, callee.root, depth + 1), fn)
             if k == "mcall" and self.has_sink(n["recv"]) and not any(self.has_sink(a) for a in n["args"]):
                 # result adaptor on a writing call: `.context(..)`, `.with_context(..)`, `.map_err(..)`
@@ -939,8 +958,9 @@ class Level:
 
 
 class Reader:
-    def __init__(self, crate, line_types=("TinyLine", "EnigmaLine"), iter_ty="WithMoreIdentIter"):
+    def __init__(self, crate, line_types=("TinyLine", "EnigmaLine"), iter_ty="WithMoreIdentIter", strict=False):
         self.crate = crate
+        self.strict = strict
         self.line_types = line_types
         self.iter_ty = iter_ty
         self.ordinals = {}     # id(mcall node of a line op) -> ordinal among the `next` calls of its row
@@ -952,7 +972,7 @@ class Reader:
         return None
 
     def mkfn(self, body, subst=None):
-        return Fn(self.crate, body, subst=subst, line_hook=self.hook)
+        return Fn(self.crate, body, subst=subst, line_hook=self.hook, strict=self.strict)
 
     # -- levels ----------------------------------------------------------------------------------
     def levels(self, fn):
@@ -1172,7 +1192,25 @@ def insert_target(crate, body, depth=0):
             a = H.peel(n["args"][0])
             if a.get("k") == "field" and a.get("adt"):
                 return short(a["adt"]), a["name"]
+    d = direct_inserts(body)
+    if len(d) == 1:
+        return d[0][1]
     return None
+
+
+MAP_INSERTS = ("insert", "insert_full", "insert_sorted", "insert_before", "shift_insert", "entry", "extend", "push", "append")
+
+
+def direct_inserts(body):
+    """Insertions made by a function straight into a map field of one of its parameters (`self.<map>.insert(..)`,
+    `self.<map>.entry(k)..`): [(mcall node, (Adt, field))].  Such a function is its own duplicate-key policy."""
+    out = []
+    for n in H.walk(body["body"]):
+        if n.get("k") == "mcall" and n["name"] in MAP_INSERTS:
+            r = H.peel(n["recv"])
+            if r.get("k") == "field" and r.get("adt") and is_map_ty(r.get("ty")) and H.local_of(r["e"]):
+                out.append((n, (short(r["adt"]), r["name"])))
+    return out
 
 
 # ------------------------------------------------------------------------------------------------
@@ -1479,7 +1517,8 @@ def alternatives(fn, e, depth=0, conds=()):
         key = c.get("inst_key") or c.get("key")
         cb = fn.crate.by_key.get(key)
         if cb is not None and not c.get("dk", "").startswith("Ctor") and key != fn.body["key"] and fn.getter_field(c) is None:
-            callee = Fn(fn.crate, cb, subst={i: (fn, a) for i, a in enumerate(e.get("args", []))}, line_hook=fn.line_hook)
+            callee = Fn(fn.crate, cb, subst={i: (fn, a) for i, a in enumerate(e.get("args", []))}, line_hook=fn.line_hook,
+                        strict=fn.strict)
             return nxt(callee, callee.root)
         return one()
     if k == "mcall":
@@ -1490,7 +1529,7 @@ def alternatives(fn, e, depth=0, conds=()):
         if cb is not None and key != fn.body["key"] and fn.getter_field(c) is None and not (fn.line_hook and fn.line_hook(fn, e) is not None):
             # a repository method with a body: only followed when it is a pure selector (early returns / if-else of places)
             args = H.call_args(e)
-            callee = Fn(fn.crate, cb, subst={i: (fn, a) for i, a in enumerate(args)}, line_hook=fn.line_hook)
+            callee = Fn(fn.crate, cb, subst={i: (fn, a) for i, a in enumerate(args)}, line_hook=fn.line_hook, strict=fn.strict)
             alts = nxt(callee, callee.root)
             if len(alts) > 1:
                 return alts
